@@ -1,5 +1,5 @@
 import CasbinVerif.Driver.Proto
-import CasbinVerif.Model.EnforcerP
+import CasbinVerif.Model.Loader
 import CasbinVerif.Spec.Perm
 import CasbinVerif.Spec.Mirror
 /-
@@ -88,6 +88,8 @@ structure EnfSt where
   enf : Option EnfP := none
   /-- every management call so far satisfied `Enf.opWF` (the hypothesis of C05.mirror_hist) -/
   histOk : Bool := true
+  /-- the filtered file adapter of the case, if it uses one -/
+  fa : Option FASt := none
 
 def showMRes : Enf.MRes → String
   | .ok b => showBool b
@@ -159,6 +161,25 @@ def specOf (e : Enf) (ctx : EnforceCtx) (rvals : List Val) : String × Bool :=
   | some d => (showBool d, wfEmpty && wfG && e.enabled)
   | none => ("-", false)
 
+/-- `nil` | `-` (empty filter) | tokens `p=v,v,…` `g=…` `g1=…` … (values percent-encoded, `~` empty) -/
+def parseFilter (ts : List String) : Option (Option Flt.Filter) :=
+  if ts == ["nil"] then some none
+  else if ts == ["-"] then some (some {})
+  else
+    ts.foldlM (fun (acc : Option Flt.Filter) (t : String) =>
+      match t.splitOn "=" with
+      | [name, vals] =>
+          let vs : Option (List (List Char)) := if vals.isEmpty then some [] else (vals.splitOn ",").mapM (fun v => (decodeTok v).map String.toList)
+          match acc, vs with
+          | some f, some vs =>
+              (match name with
+               | "p" => some (some { f with p := vs }) | "g" => some (some { f with g := vs })
+               | "g1" => some (some { f with g1 := vs }) | "g2" => some (some { f with g2 := vs })
+               | "g3" => some (some { f with g3 := vs }) | "g4" => some (some { f with g4 := vs })
+               | "g5" => some (some { f with g5 := vs }) | _ => none)
+          | _, _ => none
+      | _ => none) (some {})
+
 def enfOp (st : EnfSt) (ts : List String) : Option (EnfSt × String × String × Bool) :=
   let hdr (st' : EnfSt) : Option (EnfSt × String × String × Bool) := some (st', "#", "-", true)
   match ts with
@@ -184,6 +205,7 @@ def enfOp (st : EnfSt) (ts : List String) : Option (EnfSt × String × String ×
         | _ => none)
       hdr { st with ora := ((fn, vals), r) :: st.ora }
   | ["adapter", "mem"] => hdr { st with useAdapter := true }
+  | ["adapter", "fa", text] => do let t ← decodeTok text; hdr { st with fa := some { text := t.toList } }
   | "aline" :: pt :: fs => do let r ← decodeAll fs; hdr { st with alines := st.alines ++ [(pt, r)] }
   | ["watcher", k] => do
       let w ← (match k with | "plain" => some WatcherKind.plain | "ex" => some .ex | "upd" => some .upd | "exupd" => some .exupd | _ => none)
@@ -278,6 +300,15 @@ def enfOp (st : EnfSt) (ts : List String) : Option (EnfSt × String × String ×
           | some (ep', _) => some ({ st with enf := some ep', histOk := stateOk ep'.base }, "ok", "-", true)
           | none => none
       | "load", [] =>
+          match st.fa with
+          | some fa =>
+              -- LoadPolicy through the filtered file adapter: a full load via the scratch model; the flag is cleared first
+              (match ep.loadText true fa.text with
+               | none => some (st, "none", "-", false)
+               | some (ep', ok) =>
+                   some ({ st with enf := some ep', fa := some { fa with filtered := false },
+                                   histOk := if ok then stateOk ep'.base && ep'.base.autoBuild else st.histOk }, (if ok then "ok" else "err"), "-", true))
+          | none =>
           let (ep', ok) := ep.loadPolicy
           -- a successful load rebuilds every link from the loaded rules
           -- (with auto-build off the links are left as they were: out of step until BuildRoleLinks)
@@ -292,6 +323,35 @@ def enfOp (st : EnfSt) (ts : List String) : Option (EnfSt × String × String ×
               let ok := match res with | .ok _ => true | .err _ => false
               some ({ st with enf := some ep', histOk := if ok then stateOk ep'.base else st.histOk }, (if ok then "ok" else "err"), "-", true)
           | none => none
+      | "loadtext", [kind, text] => do
+          let t ← decodeTok text
+          match ep.loadText (kind == "file") t.toList with
+          | none => some (st, "none", "-", false)        -- order depends on map iteration (finding D22)
+          | some (ep', ok) =>
+              some ({ st with enf := some ep', histOk := if ok then stateOk ep'.base && ep'.base.autoBuild else st.histOk }, (if ok then "ok" else "err"), "-", true)
+      | "loadf", flt => do
+          let f ← parseFilter flt
+          let fa ← st.fa
+          match ep.loadFilteredFA fa f true with
+          | none => some (st, "none", "-", false)
+          | some (ep', fa', ok) =>
+              some ({ st with enf := some ep', fa := some fa', histOk := if ok then stateOk ep'.base && ep'.base.autoBuild else false },
+                s!"{if ok then "ok" else "err"} F={if fa'.filtered then 1 else 0}", "-", true)
+      | "loadif", flt => do
+          let f ← parseFilter flt
+          let fa ← st.fa
+          match ep.loadFilteredFA fa f false with
+          | none => some (st, "none", "-", false)
+          | some (ep', fa', ok) =>
+              some ({ st with enf := some ep', fa := some fa', histOk := if ok then stateOk ep'.base && ep'.base.autoBuild else false },
+                s!"{if ok then "ok" else "err"} F={if fa'.filtered then 1 else 0}", "-", true)
+      | "savefa", [] => do
+          let fa ← st.fa
+          let (fa', ok) := ep.saveFA fa
+          some ({ st with fa := some fa' }, s!"{if ok then "ok" else "err"} F={if fa'.filtered then 1 else 0}", "-", true)
+      | "obs", ["fatext"] => do
+          let fa ← st.fa
+          ret e ("t:" ++ encodeTok (String.ofList fa.text)) "-" true
       | "addmf", [gt, f] =>
           let (ep', ok) := ep.addMatchingFunc gt f
           retP ep' (showBool ok) "-" true
